@@ -649,7 +649,9 @@ def compare_A(case, impl, ans):
     """implementation vs model on the observable (exception class, call trace, rows without timing)"""
     import re
     fails = []
-    m = ans["modelI"] if (case["learner"].get("info") and not case["env"].get("batch")) else ans["model"]
+    m = ans["model"]
+    if case["learner"].get("info"):
+        m = ans["modelIB"] if case["env"].get("batch") else ans["modelI"]
     if case["learner"]["fmt"] in ("pmf", "pmfK"):
         m = ans["modelP"]
     mode = "learn=%s,eval=%s" % (case["cfg"]["learn"], case["cfg"]["eval"])
@@ -998,7 +1000,11 @@ def gen_learner(rng, cfgs, envs, allow_pmf=True, has_score=None):
         L["pmf_seed"] = rng.choice([1, 2, 7, 42, 1000003])
         for e in script:
             e["pm"] = [[n_, [list(w) for w in rng.choice(PMFS[n_])]] for n_ in range(1, 6)]
-    if fmt not in ("pmf", "pmfK") and rng.chance(0.15) and not any(e_.get("batch") for e_ in envs):
+    def info_ok(e_):
+        # in a batched pass the info is merged into the batch row; a batch row without any Batch.List cell is never un-batched
+        # (then there is one row per batch holding the raw info) -- generated only where every row has an extra field
+        return not e_.get("batch") or all(any(k not in RESERVED for k, _ in p_) for p_ in e_["inters"])
+    if fmt not in ("pmf", "pmfK") and rng.chance(0.15) and all(info_ok(e_) for e_ in envs):
         # the learner also writes CobaContext.learning_info: predict writes `ip`, learn then update()s with `il` (modelled un-batched)
         L["info"] = True
         for e in script:
